@@ -117,9 +117,53 @@ def roundtrip(kind, ast, label, r):
         s2 = f'<{type(e).__name__}>'
     if s2 != s:
         problems.append(('printing is not a fixed point', f'{label}: «{s}» then «{s2}»'))
+    if kind in ('prop', 'pred'):
+        problems += print_order_independent(kind, label, s, label, r)
     r.keys.add((kind, _h(s), _h(lt)))
     r.outcomes['ok' if not problems else 'problem'] += 1
     return problems
+
+
+def _parts(obj, out, seen):
+    """Every AST object below obj (attrs fields, tuples), children before parents."""
+    import attr
+
+    if id(obj) in seen:
+        return
+    seen.add(id(obj))
+    if isinstance(obj, (tuple, list)):
+        for x in obj:
+            _parts(x, out, seen)
+        return
+    if not attr.has(type(obj)) or not type(obj).__module__.startswith('hpl.'):
+        return
+    for f in attr.fields(type(obj)):
+        if f.name != 'metadata':
+            _parts(getattr(obj, f.name, None), out, seen)
+    out.append(obj)
+
+
+def print_order_independent(kind, text, s, label, r):
+    """Printing is a function of the tree: a twin whose parts were all printed first (children before parents), then
+    the twin itself, prints like the original did; and each part prints the same before and after the whole did."""
+    st, twin = impl.try_parse(kind, text)
+    if st != 'ok':
+        return []
+    parts = []
+    _parts(twin, parts, set())
+    r.count('transitions', len(parts) + 1)
+    try:
+        before = [str(x) for x in parts]
+        whole = str(twin)
+        after = [str(x) for x in parts]
+    except Exception as e:  # noqa: BLE001
+        return [(f'str() raised {type(e).__name__} on a part', f'{label}: {e}')]
+    if whole != s:
+        return [('printing depends on what was printed before', f'{label}: «{s}» when printed first, «{whole}» after its {len(parts) - 1} parts were printed')]
+    for x, a, b_ in zip(parts, before, after):
+        if a != b_:
+            return [('printing depends on what was printed before', f'{label}: the {type(x).__name__} «{a}» prints as «{b_}» after the whole was printed')]
+    return []
 
 
 def refs_printed_uniquely(ast, label):
@@ -334,7 +378,7 @@ def replay(w):
 def describe(tier):
     b = bounds(tier)
     return {
-        'rule': f"parsed ASTs of: all Bool/Num/Str terms with <= {b['nodes']} nodes (fields, alias fields, nested fields, int/float/exponent literals, constants PI INF, strings, all 16 binary and both unary operators, sets, 4 range forms, indexing, inclusion, both quantifiers, abs/len/sum/max) as expression and predicate; all 27 built-in functions x 18 argument shapes x 4 contexts; every property skeleton (4 scopes x 5 patterns x widths 1..{b['max_width']} per position) x 6 decorations x 4 time bounds; all sequences of 1..3 from 6 properties as specifications; time bounds k*10^d for k in 1..{b['time_k']}, d in {b['time_exp']}, units s and ms. Each: str, re-parse with the same entry point, ==, hash, second str; The whole message (roll / yaw of the own alias) is placed in 17 contexts (below indices, field accesses after an index, range bounds, set members, function arguments, quantifier domains and bodies) x 3 event positions; plus a run-wide map printed text -> typed tree (injectivity).",
+        'rule': f"parsed ASTs of: all Bool/Num/Str terms with <= {b['nodes']} nodes (fields, alias fields, nested fields, int/float/exponent literals, constants PI INF, strings, all 16 binary and both unary operators, sets, 4 range forms, indexing, inclusion, both quantifiers, abs/len/sum/max) as expression and predicate; all 27 built-in functions x 18 argument shapes x 4 contexts; every property skeleton (4 scopes x 5 patterns x widths 1..{b['max_width']} per position) x 6 decorations x 4 time bounds; all sequences of 1..3 from 6 properties as specifications; time bounds k*10^d for k in 1..{b['time_k']}, d in {b['time_exp']}, units s and ms. Each: str, re-parse with the same entry point, ==, hash, second str; predicates and properties also through a twin whose parts (every node, children first) are printed before and after the whole - the texts must not depend on the order; The whole message (roll / yaw of the own alias) is placed in 17 contexts (below indices, field accesses after an index, range bounds, set members, function arguments, quantifier domains and bodies) x 3 event positions; plus a run-wide map printed text -> typed tree (injectivity).",
         'bounds': b,
         'exhaustive': True,
         'assumptions': ['equality of typed lifted trees is the reference notion of "same AST"'],
